@@ -1,4 +1,6 @@
 import MoneroModel.Proofs.BlockSound
+import MoneroModel.Proofs.TxIdCommits
+import MoneroModel.Proofs.FixedRecords
 import MoneroModel.Gen.Codec
 open Monero
 /-! # C01 — parsed consensus data re-serialises to exactly the bytes that were parsed
@@ -97,6 +99,180 @@ theorem C01_ids_commit {α β} (enc : α → Bytes) (dec : Dec α) (hs : Sound e
   split at h <;> simp at h
   rename_i y hd; subst h
   have := hs _ _ _ hd; simp at this; rw [this]
+
+/-! ## Added after the audit -/
+
+/-- `RctType` as a stand-alone `Decodable` / `Encodable` (ringct.rs:659-689; `RctSigBase` inlines the same byte) -/
+theorem C01_sound_rcttype : Sound encRctType rctType := by
+  intro b x r h
+  unfold rctType at h
+  obtain ⟨t, r1, h1, h2⟩ := bind_some h
+  have hb := sound_u8 _ _ _ h1
+  split at h2
+  · exact (fail_some h2).elim
+  · obtain ⟨rfl, rfl⟩ := pure_some h2
+    simpa [encRctType] using hb
+
+/-- signed fixed-width integers (`i8 … i64`): the two's-complement residue of the decoded value, little endian, is the
+consumed bytes -/
+theorem C01_sound_int (k : Nat) (b : Bytes) (v : Int) (r : Bytes) (h : intLE k b = some (v, r)) :
+    b = encIntLE k v ++ r := by
+  unfold intLE at h
+  obtain ⟨n, r1, h1, h2⟩ := bind_some h
+  obtain ⟨rfl, rfl⟩ := pure_some h2
+  obtain ⟨hb, hn⟩ := sound_uintLE k _ _ _ h1
+  have e : ((if n < 256 ^ k / 2 then (n : Int) else (n : Int) - ((256 ^ k : Nat) : Int)) % ((256 ^ k : Nat) : Int)).toNat = n := by
+    split
+    · rw [Int.emod_eq_of_lt (by omega) (by exact_mod_cast hn)]; simp
+    · rw [Int.sub_emod, Int.emod_self, Int.sub_zero, Int.emod_emod_of_dvd _ (Int.dvd_refl _), Int.emod_eq_of_lt (by omega) (by exact_mod_cast hn)]; simp
+  unfold encIntLE
+  rw [e]; exact hb
+
+/-- `bool` (any non-zero byte decodes to `true`, `true` is written as 1) is NOT a canonical codec: it is outside the property
+(`bool` is not reachable from `Block` / `Transaction`), and the harness excludes it from the intrinsic oracle for this reason -/
+theorem C01_bool_not_sound : ¬ Sound encBool boolDec := by
+  intro h
+  have := h [2] true [] (by rfl)
+  revert this; decide
+/-- … it is sound exactly on the two canonical bytes -/
+theorem C01_sound_bool_canonical (t : UInt8) (r : Bytes) (ht : t = 0 ∨ t = 1) (x : Bool) (r' : Bytes)
+    (h : boolDec (t :: r) = some (x, r')) : t :: r = encBool x ++ r' := by
+  rcases ht with rfl | rfl <;> (simp [boolDec, Monero.bind, u8, pure'] at h; obtain ⟨rfl, rfl⟩ := h; rfl)
+example : boolDec [1, 7] = some (true, [7]) := by rfl
+
+/-- instances of "no two different byte strings parse to the same value" for the concrete record types -/
+theorem C01_injective_tx (b1 b2 : Bytes) (t : Tx) (h1 : strict tx b1 = some t) (h2 : strict tx b2 = some t) : b1 = b2 :=
+  C01_injective encTx tx sound_tx b1 b2 t h1 h2
+theorem C01_injective_block (b1 b2 : Bytes) (x : Block) (h1 : strict block b1 = some x) (h2 : strict block b2 = some x) : b1 = b2 :=
+  C01_injective encBlock block sound_block b1 b2 x h1 h2
+theorem C01_injective_header (b1 b2 : Bytes) (x : Header) (h1 : strict header b1 = some x) (h2 : strict header b2 = some x) : b1 = b2 :=
+  C01_injective encHeader header sound_header b1 b2 x h1 h2
+theorem C01_injective_prefix (b1 b2 : Bytes) (x : Prefix) (h1 : strict prefix' b1 = some x) (h2 : strict prefix' b2 = some x) : b1 = b2 :=
+  C01_injective encPrefix prefix' sound_prefix b1 b2 x h1 h2
+theorem C01_injective_txin (b1 b2 : Bytes) (x : TxIn) (h1 : strict txin b1 = some x) (h2 : strict txin b2 = some x) : b1 = b2 :=
+  C01_injective encTxIn txin sound_txin b1 b2 x h1 h2
+theorem C01_injective_txout (b1 b2 : Bytes) (x : TxOut) (h1 : strict txout b1 = some x) (h2 : strict txout b2 = some x) : b1 = b2 :=
+  C01_injective encTxOut txout sound_txout b1 b2 x h1 h2
+example : strict tx [2, 0, 1, 0xff, 5, 0, 0, 0] = some ⟨⟨2, 0, [.gen 5], [], []⟩, [], some ⟨0, 0, [], [], []⟩, none⟩ := by rfl
+
+/-- **The transaction identifier commits to the received bytes** (the clause that `C01_ids_commit` only states for
+identifiers of the form `H ∘ serialize`): for the model of `Transaction::hash` (`txHash`, Model/TxHash.lean — version 1:
+`H(serialisation)`; otherwise `H(H(prefix) ‖ H(base) ‖ (Null ? 0³² : H(prunable)))`) with an arbitrary 32-byte-valued `H`, two
+strictly parsed transactions of the same version class with equal identifiers were parsed from the SAME bytes, or the
+equality exhibits a collision of `H`. (Without `hv` the claim is false: a 96-byte RingCT pre-image can itself be a valid version-1
+serialisation, so version-1 and RingCT identifiers are not domain-separated.) -/
+theorem C01_txid_commits (H : Bytes → Bytes) (hlen : ∀ x, (H x).length = 32) (b1 b2 : Bytes) (t1 t2 : Tx)
+    (h1 : tx b1 = some (t1, [])) (h2 : tx b2 = some (t2, []))
+    (hv : t1.pre.version = 1 ↔ t2.pre.version = 1) (hid : txHash H t1 = txHash H t2) :
+    b1 = b2 ∨ ∃ u v, u ≠ v ∧ H u = H v := txid_commits H hlen b1 b2 t1 t2 h1 h2 hv hid
+/- the hypotheses are jointly satisfiable (constant `H`, a Null-type coinbase transaction) -/
+example : ∃ (H : Bytes → Bytes) (b : Bytes) (t : Tx), (∀ x, (H x).length = 32) ∧ tx b = some (t, []) :=
+  ⟨fun _ => List.replicate 32 0, [2, 0, 1, 0xff, 5, 0, 0, 0], ⟨⟨2, 0, [.gen 5], [], []⟩, [], some ⟨0, 0, [], [], []⟩, none⟩, fun _ => by simp, by rfl⟩
+
+/-- **Fixed-width records, field by field.** The flat `takeN` models (`C01_sound_fixed`) say nothing about the separately written
+Rust element loops; these do: reading n fixed-width elements one after another (`[T; N]` of `impl_array!`, the `Key64` loop) consumes
+exactly the bytes of one flat read and the parts concatenate to the flat value; `Signature { c, r }` read as two keys and
+`RangeSig { asig: BoroSig { s0, s1, ee }, Ci }` read as 64 + 64 + 1 + 64 keys (Proofs/FixedRecords: `key64S`, `signatureS`,
+`rangeSigS`, with their own encoders) agree with the flat 64 / 6176-byte models used by the driver, and are sound by themselves. -/
+theorem C01_fixed_elementwise (w : Nat) (n : Nat) (b : Bytes) :
+    (rep (takeN w) n b).map (fun p => (p.1.flatten, p.2)) = takeN (w * n) b := rep_takeN_flat w n b
+theorem C01_key64_elementwise (b : Bytes) : (key64S b).map (fun p => (p.1.flatten, p.2)) = key64 b := key64S_flat b
+theorem C01_signature_fieldwise (b : Bytes) : (signatureS b).map (fun p => (p.1.1 ++ p.1.2, p.2)) = signature b := signatureS_flat b
+theorem C01_rangesig_fieldwise (b : Bytes) : (rangeSigS b).map (fun p => (encRangeSigS p.1, p.2)) = rangeSig b := rangeSigS_flat b
+theorem C01_sound_key64 : Sound (encSized id) key64S := sound_key64S
+theorem C01_sound_rangesig : Sound encRangeSigS rangeSigS := sound_rangeSigS
+
+/-- which variant a model value is, in the vocabulary of the regenerated tables -/
+def txInV : TxIn → TxInV | .gen _ => .Gen | .toKey .. => .ToKey
+def targetV : Target → TargetV | .key _ => .ToKey | .tagged .. => .ToTaggedKey
+
+/-- **The tag literals of the model are the tag tables of the CURRENT SOURCE** (`Gen.*`, regenerated on every run): whatever the
+model decoders accept starts with a tag of the table and yields the variant the table gives for it; every tag of the table is
+accepted (given enough bytes) as that variant; the model encoders write the table's tag for the variant; the RingCT type byte
+accepted by `base` / `rctType` is a key of `Gen.rctTypeDecode`, every key is accepted, and the encoder writes the type's own
+number; and the type sets on which the model branches (`ty ≤ 3` for the 64-byte ecdh form, `ty = 4 ∨ ty = 5` varint proof count,
+`ty = 5 ∨ ty = 6` CLSAG, `ty ≥ 3` pseudo outs in the prunable part, `ty = 2` pseudo outs in the base, `ty = 0` nothing) are the
+variant sets of the `match rct_type` arms of the source. A one-sided tag edit in the source changes a table and breaks this
+theorem even where `C01_sound_*` (which speak about the model alone) stay true. -/
+theorem C01_model_tags_are_source :
+    (∀ t r x r', txin (t :: r) = some (x, r') → (t.toNat, txInV x) ∈ Gen.txInDecode) ∧
+    (∀ p ∈ Gen.txInDecode, (txin (UInt8.ofNat p.1 :: List.replicate 64 0)).map (fun y => txInV y.1) = some p.2) ∧
+    (∀ x, ∃ t rest, encTxIn x = t :: rest ∧ (txInV x, t.toNat) ∈ Gen.txInEncode) ∧
+    (∀ t r x r', target (t :: r) = some (x, r') → (t.toNat, targetV x) ∈ Gen.txOutTargetDecode) ∧
+    (∀ p ∈ Gen.txOutTargetDecode, (target (UInt8.ofNat p.1 :: List.replicate 64 0)).map (fun y => targetV y.1) = some p.2) ∧
+    (∀ x, ∃ t rest, encTarget x = t :: rest ∧ (targetV x, t.toNat) ∈ Gen.txOutTargetEncode) ∧
+    (∀ i o t r x r', base i o (t :: r) = some (x, r') → t.toNat ∈ Gen.rctTypeDecode.map (·.1) ∧ x.ty = t.toNat) ∧
+    (∀ t r x r', rctType (t :: r) = some (x, r') → t.toNat ∈ Gen.rctTypeDecode.map (·.1) ∧ x = t.toNat) ∧
+    (∀ p ∈ Gen.rctTypeDecode, (base 0 0 (UInt8.ofNat p.1 :: List.replicate 8 0)).isSome ∧ (rctType [UInt8.ofNat p.1]).isSome) ∧
+    (∀ p ∈ Gen.rctTypeEncode, encRctType p.2 = [UInt8.ofNat p.2] ∧ (p.2, p.1) ∈ Gen.rctTypeDecode) ∧
+    (∀ p ∈ Gen.rctTypeDecode,
+      (decide (p.1 ≤ 3) = decide (p.2 ∈ Gen.ecdhDecMatches[0]![0]!)) ∧ (decide (p.1 ≤ 3) = !decide (p.2 ∈ Gen.ecdhDecMatches[0]![1]!)) ∧
+      (decide (p.1 = 0) = decide (p.2 ∈ Gen.baseDecMatches[0]![0]!)) ∧ (decide (p.1 = 0) = decide (p.2 ∈ Gen.prunDecMatches[0]![0]!)) ∧
+      (decide (p.1 = 2) = decide (p.2 ∈ Gen.baseDecEqs)) ∧
+      (decide (p.1 = 4 ∨ p.1 = 5) = decide (p.2 ∈ Gen.prunDecMatches[1]![0]!)) ∧
+      (decide (p.1 = 5 ∨ p.1 = 6) = decide (p.2 ∈ Gen.prunDecMatches[2]![0]!)) ∧
+      (decide (p.1 ≥ 3) = decide (p.2 ∈ Gen.prunDecMatches[3]![0]!))) := by
+  refine ⟨?_, by decide, ?_, ?_, by decide, ?_, ?_, ?_, by decide, by decide, by decide⟩
+  · intro t r x r' h
+    unfold txin at h
+    simp only [Monero.bind, u8] at h
+    split at h
+    · rename_i ht; subst ht
+      obtain ⟨hh, r1, _, h2⟩ := bind_some h
+      obtain ⟨rfl, _⟩ := pure_some h2; simp only [txInV, targetV]; decide
+    · split at h
+      · rename_i ht; subst ht
+        obtain ⟨a, r1, _, h2⟩ := bind_some h
+        obtain ⟨o, r2, _, h3⟩ := bind_some h2
+        obtain ⟨k, r3, _, h4⟩ := bind_some h3
+        obtain ⟨rfl, _⟩ := pure_some h4; simp only [txInV, targetV]; decide
+      · exact (fail_some h).elim
+  · intro x; cases x with
+    | gen h => exact ⟨0xff, _, rfl, by simp only [txInV, targetV]; decide⟩
+    | toKey a o k => exact ⟨2, _, rfl, by simp only [txInV, targetV]; decide⟩
+  · intro t r x r' h
+    unfold target at h
+    simp only [Monero.bind, u8] at h
+    split at h
+    · rename_i ht; subst ht
+      obtain ⟨k, r1, _, h2⟩ := bind_some h
+      obtain ⟨rfl, _⟩ := pure_some h2; simp only [txInV, targetV]; decide
+    · split at h
+      · rename_i ht; subst ht
+        obtain ⟨k, r1, _, h2⟩ := bind_some h
+        obtain ⟨v, r2, _, h3⟩ := bind_some h2
+        obtain ⟨rfl, _⟩ := pure_some h3; simp only [txInV, targetV]; decide
+      · exact (fail_some h).elim
+  · intro x; cases x with
+    | key k => exact ⟨2, _, rfl, by simp only [txInV, targetV]; decide⟩
+    | tagged k v => exact ⟨3, _, rfl, by simp only [txInV, targetV]; decide⟩
+  · intro i o t r x r' h
+    have hty := (sound_base i o _ _ _ h)
+    unfold base at h
+    simp only [Monero.bind, u8] at h
+    split at h
+    · exact (fail_some h).elim
+    · rename_i hle
+      have hle' : t.toNat ≤ 6 := by omega
+      refine ⟨?_, ?_⟩
+      · have : ∀ n, n ≤ 6 → n ∈ Gen.rctTypeDecode.map (·.1) := by decide
+        exact this _ hle'
+      · split at h
+        · rename_i h0; obtain ⟨rfl, _⟩ := pure_some h; exact h0.symm
+        · obtain ⟨fee, r1, _, h2⟩ := bind_some h
+          obtain ⟨ps, r2, _, h3⟩ := bind_some h2
+          obtain ⟨e, r3, _, h4⟩ := bind_some h3
+          obtain ⟨pk, r4, _, h5⟩ := bind_some h4
+          obtain ⟨rfl, _⟩ := pure_some h5; rfl
+  · intro t r x r' h
+    unfold rctType at h
+    simp only [Monero.bind, u8] at h
+    split at h
+    · exact (fail_some h).elim
+    · rename_i hle
+      obtain ⟨rfl, _⟩ := pure_some h
+      have : ∀ n, n ≤ 6 → n ∈ Gen.rctTypeDecode.map (·.1) := by decide
+      exact ⟨this _ (by omega), rfl⟩
 
 /- non-vacuity: a concrete coinbase-style transaction is accepted (test, by kernel evaluation) -/
 example : (tx [2, 0, 1, 0xff, 5, 0, 0, 0]).isSome = true := by decide
